@@ -60,7 +60,7 @@ static const Scenario kScenarios[] = {
             "a.c b.c c.c hdr", "all", { { "b.o", "hdr", 0, NULL }, { "c.o", "hdr", 0, NULL }, { NULL } } },
   /* 25 */ { "restat_with_deps", { RULES "build o: gend c\nbuild p: genf c2\nbuild x: cc o p\n", NULL, NULL },
             "c c2 hdr", "x", { { "o", "hdr", KEEP_IF_SAME | HALVE, NULL }, { "p", "hdr", KEEP_IF_SAME | HALVE, NULL }, { NULL } } },
-  /* 26 */ { "restat_order_only_newer", { RULES "build mid: gen s\nbuild out: cc mid || stamp\n", NULL, NULL },
+  /* 26 */ { "restat_order_only_newer", { RULES "build mid: gen s\nbuild out: cc mid || stamp\n", RULES "build mid: gen s\nbuild out: cc mid || stamp\n  command = cc -O2 $in -o $out\n", NULL },
             "s stamp", "out", { { "mid", "", KEEP_IF_SAME | HALVE, NULL }, { NULL } } },
   /* 27 */ { "rspfile_empty_content", { RULES "build o1: cc c1\nbuild app: link2 | o1\nbuild app2: link2 o1\n", NULL, NULL },
             "c1", "app app2", { { NULL } } },
@@ -69,6 +69,13 @@ static const Scenario kScenarios[] = {
   /* 29 */ { "regen_manifest", { RULES "rule regen\n  command = configure\n  generator = 1\nbuild build.ninja: regen configure.in\nbuild b: cc a\nbuild c: cc b\n",
                                  RULES "rule regen\n  command = configure\n  generator = 1\nbuild build.ninja: regen configure.in\nbuild b: cc a a2\nbuild c: cc b\n  command = cc -O2 $in -o $out\n", NULL },
             "a a2 configure.in", "c b", { { "build.ninja", "", REGEN_MANIFEST, NULL }, { NULL } } },
+  /* 30 */ { "dead_outputs", { RULES "build old: cc s1\nbuild old2: cc s1\nbuild olddep: ccf s3\nbuild keep: cc s2\nbuild all: phony old old2 olddep keep\n",
+                               RULES "build keep: cc s2 old2\nbuild all: phony keep\n", NULL },
+            "s1 s2 s3", "all", { { NULL } } },
+  /* 31 */ { "tools_mix", { RULES "rule ver\n  command = mkver > $out\nbuild version.h: ver\nbuild o: cc c | version.h\nbuild app: link2 o\nbuild all: phony app\n", NULL, NULL },
+            "c", "app all", { { NULL } } },
+  /* 32 */ { "generator_runs_restat", { RULES "build pre: cc s1\nbuild gen.stamp: conf cfg pre\nbuild out: cc s2 || gen.stamp\nbuild post: cc out\n", RULES "build pre: cc s1\nbuild gen.stamp: conf cfg pre\nbuild out: cc s2 || gen.stamp\n  command = cc -O2 $in -o $out\nbuild post: cc out\n", NULL },
+            "s1 s2 cfg", "post", { { "gen.stamp", "", RUNS_RESTAT_TOOL, NULL }, { NULL } } },
 };
 #ifndef SCENARIO
 #define SCENARIO 0
